@@ -362,7 +362,8 @@ impl Property for C04 {
         "Instances: (a) every list of length ≤ 4 (quick) / ≤ 5 (thorough) over a 7-item alphabet {box, glue, penalty 0, forced penalty, explicit kern, two discretionaries} \
          followed by the paragraph end, at tolerances {200, 10000}, force ∈ {0,1}; (b) random paragraphs of 1–14 words (boxes, discretionaries with replace counts, \
          font kerns, math on/off, runs of discardable items between words, finite and infinite stretch, 1–3 line widths, left/right skip, emergency stretch) × random \
-         parameter settings × looseness ∈ {0,±1,±2} × force ∈ {0,1}. The verdict is computed by Lean with the proved-optimal reference; instances outside the \
+         parameter settings × looseness ∈ {0,±1,±2} × force ∈ {0,1}; (c) a looseness stream: short paragraphs with finite stretch on the last line \
+         (several end states per line count), looseness ∈ {±1,±2,0}. The verdict is computed by Lean with the proved-optimal reference; instances outside the \
          quantifier (overfull not upward closed; totals that may reach 2^30) are skipped and counted. Non-trivial = inside the domain and with at least 2 legal \
          breakpoints; distinct = distinct case string."
             .into()
@@ -423,6 +424,43 @@ impl Property for C04 {
                 };
                 v.push(format!("kp {force} 0 {}", join(&inst.encode())));
             }
+        }
+        // looseness stream: short paragraphs whose last line has *finite* stretch, so that several
+        // end states with the same line count but different fitness classes and demerits coexist
+        // (the tie-break of TeX.2021.875), and several line counts are feasible
+        let n_loose = if ctx.thorough { 30_000 } else { 3_000 };
+        let mut r = rng.fork();
+        for _ in 0..n_loose {
+            let mut items = vec![];
+            let words = 2 + r.below(6) as usize;
+            for w in 0..words {
+                items.push(It::Box(*r.pick(&[10, 15, 30, 30, 20])));
+                if w + 1 < words {
+                    if r.chance(1, 4) {
+                        items.push(It::Penalty(*r.pick(&[70, 0, -50, 150])));
+                    }
+                    items.push(It::Glue(5, *r.pick(&[40, 40, 20, 10]), 0, *r.pick(&[0, 0, 2])));
+                }
+            }
+            items.push(It::Penalty(10000));
+            items.push(It::Glue(0, *r.pick(&[110, 60, 30, 200]), 0, 0));
+            let inst = Inst {
+                tol: *r.pick(&[200, 200, 1000, 10000]),
+                emerg: 0,
+                line_pen: 10,
+                hyph_pen: 50,
+                exhyph_pen: 50,
+                adj: *r.pick(&[10000, 10000, 0]),
+                dbl: 10000,
+                fin: 5000,
+                left: [0; 4],
+                right: [0; 4],
+                widths: vec![*r.pick(&[100, 100, 80, 120])],
+                items,
+            };
+            let q = *r.pick(&[1, 1, -1, 2, -2, 0]);
+            let force = r.chance(1, 5) as i64;
+            v.push(format!("kp {force} {q} {}", join(&inst.encode())));
         }
         let n = if ctx.thorough { 40_000 } else { 4_000 };
         let mut r = rng.fork();
